@@ -199,13 +199,15 @@ package secp256k1
 //@
 //@ func (*Point).Identity
 //@   props C03 C18
-//@   ensures v.isValid && val(v.x) == 0 && val(v.y) == 1 && val(v.z) == 0 && abs(v) == O && result == v
+//@   weak v
+//@   ensures v.isValid && val(v.x) == 0 && val(v.y) == 1 && val(v.z) == 0 && abs(v) == O && onc(v) && result == v
 //@   using pt_identity()
 //@   modifies *v
 //@
 //@ func (*Point).Generator
 //@   props C03 C18
-//@   ensures v.isValid && val(v.x) == GX && val(v.y) == GY && val(v.z) == 1 && abs(v) == G && result == v
+//@   weak v
+//@   ensures v.isValid && val(v.x) == GX && val(v.y) == GY && val(v.z) == 1 && abs(v) == G && onc(v) && result == v
 //@   using pt_generator()
 //@   using aff_coords(GX, GY)
 //@   modifies *v
@@ -481,3 +483,31 @@ package secp256k1
 //@   ensures (recoveryID < 4 && recx(val(xScalar), recoveryID) < P && issq(pow(atom(fp(recx(val(xScalar), recoveryID))), 3) + 7)) ==> result0.isValid && val(result0.z) == 1 && val(result0.x) == fp(recx(val(xScalar), recoveryID)) && onaff(val(result0.x), val(result0.y)) && lift(val(result0.y)) % 2 == recoveryID % 2 && abs(result0) == aff(val(result0.x), val(result0.y))
 //@   ensures !(recoveryID < 4 && recx(val(xScalar), recoveryID) < P && issq(pow(atom(fp(recx(val(xScalar), recoveryID))), 3) + 7)) ==> result0 == nil
 //@   fresh result0
+//@
+//@ func lookupProjectivePoint
+//@   props C04 C17 C19
+//@   weak tbl, out
+//@   requires idx <= 15
+//@   ensures val(out.x) == tselx(tbl, idx) && val(out.y) == tsely(tbl, idx) && val(out.z) == tselz(tbl, idx)
+//@   modifies *out
+//@
+//@ func newProjectivePointMultTable
+//@   props C04 C16
+//@   panics !p.isValid
+//@   ensures tblok(result) && abs(result[0]) == abs(p)
+//@
+//@ func (*projectivePointMultTable).SelectAndAdd
+//@   props C04 C16 C17
+//@   weak tbl, sum
+//@   split value idx in 0..15
+//@   requires idx <= 15 && tblok(tbl) && onc(sum)
+//@   ensures onc(sum) && abs(sum) == padd(old(abs(sum)), smul(idx, old(abs(tbl[0])))) && result == sum
+//@   using pt_identity()
+//@   modifies sum.x, sum.y, sum.z
+//@
+//@ func (*projectivePointMultTable).SelectAndAddVartime
+//@   props C04 C16
+//@   weak tbl, sum
+//@   requires idx <= 15 && tblok(tbl) && onc(sum)
+//@   ensures onc(sum) && abs(sum) == padd(old(abs(sum)), smul(idx, old(abs(tbl[0])))) && result == sum
+//@   modifies sum.x, sum.y, sum.z
